@@ -91,7 +91,7 @@ def region_lazy_decode_identities(**kw):
 
 def pre_doc(fn, **kw):
     for k, v in kw.items():
-        lim = {"k": len(KS), "r": len(REFS), "c": len(CH), "x": 2}[k[0]]
+        lim = {"k": len(KS), "r": len(REFS), "c": len(CH), "x": 3}[k[0]]
         lim = min(lim, CFG.get("lims", {}).get(k, lim))
         if not (0 <= v < lim):
             return False
@@ -109,7 +109,7 @@ def _doc(kw):
         k = KS[pick(kw["k%d" % j], len(KS))] if ("k%d" % j) in kw else str(j + 1)
         r = REFS[pick(kw["r%d" % j], len(REFS))] if ("r%d" % j) in kw else None
         ch = CH[pick(kw["c%d" % j], len(CH))]
-        ns = NSD[pick(kw["x%d" % j], 2)] if ("x%d" % j) in kw else False
+        ns = pick(kw["x%d" % j], 3) if ("x%d" % j) in kw else 0          # 0 none, 1 item declares, 2 item and its last child declare
         attrs = ''
         if k is not None:
             attrs += ' k="%s"' % k
@@ -117,7 +117,10 @@ def _doc(kw):
             attrs += ' ref="%s"' % r
         if ns:
             attrs += ' xmlns:q="urn:q%d" xmlns:q2="urn:qq%d"' % (j, j)
-        items.append('<i%s>%s</i>' % (attrs, ''.join('<c>%s</c>' % t for t in ch)))
+        kids = ['<c>%s</c>' % t for t in ch]
+        if ns == 2 and kids:
+            kids[-1] = kids[-1].replace('<c>', '<c xmlns:w="urn:w%d">' % j, 1)
+        items.append('<i%s>%s</i>' % (attrs, ''.join(kids)))
     return '<r xmlns:p="urn:p">%s</r>' % ''.join(items)
 
 
